@@ -144,5 +144,6 @@ TypeOK == /\ Len(mem) = Len(dmem) /\ synced <= Len(mem) /\ Len(pdisk) = Len(ddis
 \* behaviours for replay on the real tree: printed when a behaviour reaches EmitDepth steps
 Emit == (EmitDepth > 0 /\ Len(hist) = EmitDepth) =>
           PrintT(<<"JSON:", ToJson([ops |-> hist])>>)
-View == <<mem, dmem, synced, pdisk, ddisk, pflushed, clen, next, open, ideal, isync>>
+\* the behaviour length bounds the exploration, so it is part of the view (only the content of the history is hidden)
+View == <<mem, dmem, synced, pdisk, ddisk, pflushed, clen, next, open, ideal, isync, Len(hist)>>
 =============================================================================
